@@ -1,6 +1,6 @@
-//! `irrfake serve --seed N [--size small|medium|large] [--port P] [--rs-as-members] [--db FILE]`
+//! `irrfake serve --seed N [--size small|medium|large] [--port P] [--rs-as-members] [--max-len L] [--db FILE]`
 //!     prints `PORT <port>` and serves until killed.
-//! `irrfake dump --seed N [--size ...] [--rs-as-members]` prints the database as JSON.
+//! `irrfake dump --seed N [--size ...] [--rs-as-members] [--max-len L]` prints the database as JSON.
 
 use std::io::Write;
 
@@ -8,14 +8,14 @@ use irrfake::db::{generate_with, Db, GenOpts, Size};
 use irrfake::server::{Faults, Server};
 
 fn usage() -> ! {
-    eprintln!("usage: irrfake serve|dump --seed N [--size small|medium|large] [--port P] [--rs-as-members] [--db FILE.json]");
+    eprintln!("usage: irrfake serve|dump --seed N [--size small|medium|large] [--port P] [--rs-as-members] [--max-len L] [--db FILE.json]");
     std::process::exit(2)
 }
 
 fn main() {
     let args: Vec<String> = std::env::args().skip(1).collect();
     let Some(cmd) = args.first() else { usage() };
-    let (mut seed, mut size, mut port, mut rs_as, mut file) = (0u64, Size::Small, 0u16, false, None);
+    let (mut seed, mut size, mut port, mut rs_as, mut file, mut max_len) = (0u64, Size::Small, 0u16, false, None, None);
     let mut it = args[1..].iter();
     while let Some(a) = it.next() {
         let mut val = || it.next().cloned().unwrap_or_else(|| usage());
@@ -24,6 +24,7 @@ fn main() {
             "--size" => size = Size::parse(&val()).unwrap_or_else(|| usage()),
             "--port" => port = val().parse().unwrap_or_else(|_| usage()),
             "--db" => file = Some(val()),
+            "--max-len" => max_len = Some(val().parse().unwrap_or_else(|_| usage())),
             "--rs-as-members" => rs_as = true,
             _ => usage(),
         }
@@ -33,7 +34,7 @@ fn main() {
             let text = std::fs::read_to_string(&f).expect("read db file");
             Db::from_json(&serde_json::from_str(&text).expect("db file is not JSON")).expect("bad db")
         }
-        None => generate_with(seed, GenOpts { size, rs_as_members: rs_as }),
+        None => generate_with(seed, GenOpts { size, rs_as_members: rs_as, max_prefix_len: max_len }),
     };
     match cmd.as_str() {
         "dump" => println!("{}", serde_json::to_string_pretty(&db.to_json()).unwrap()),
